@@ -7,7 +7,7 @@ property monitors on real traces -> on any broken obligation / disagreement sear
 input -> verdict + evidence."""
 import sys, os, json, random, shutil, time, re, traceback
 sys.path.insert(0, os.path.dirname(os.path.abspath(__file__)))
-import vlib, kapi, genapi, monitors, ksizes, kcrypto, kattr, kguard, kstore, ktoken
+import vlib, kapi, genapi, monitors, ksizes, kcrypto, kattr, kguard, kstore, ktoken, kfuzz
 
 TRUSTED_BASE = [
     'Coq 8.16.1 kernel (coqc, full .vo build); vm_compute used for reflection over regenerated tables and finite sweeps; no native_compute',
@@ -307,18 +307,18 @@ def check_C12(res, tier, seed):
 
 def _kc_job(args):
     fn, a = args[0], args[1:]
-    mod = kattr if fn.startswith('seq_attr') else kguard if fn.startswith('seq_guard') else kstore if fn in ('seq_reject', 'seq_persist') else ktoken if fn == 'seq_tokens' else kcrypto
+    mod = kattr if fn.startswith('seq_attr') else kguard if fn.startswith('seq_guard') else kstore if fn in ('seq_reject', 'seq_persist') else ktoken if fn == 'seq_tokens' else kfuzz if fn in ('seq_files', 'seq_api', 'seq_incomplete') else kcrypto
     return getattr(mod, fn)(*a)
 
 
-def run_kcrypto(c, res, pid, fn, n, seed, extra=(), stream='K-crypto'):
+def run_kcrypto(c, res, pid, fn, n, seed, extra=(), stream='K-crypto', lib2=None, lib_override=None):
     import multiprocessing
     stats = {'sequences': 0, 'calls': 0, 'findings': 0, 'model_disagreements': 0, 'model_evaluations': 0, 'op_kinds': {}}
     seen = set()
     samples = []
     reported = 0
     with multiprocessing.Pool(16) as pool:
-        for out in pool.imap(_kc_job, [(fn, c.lib, c.harness['p11drv'], seed, i) + tuple(extra) for i in range(n)], chunksize=2):
+        for out in pool.imap(_kc_job, [((fn, lib_override or c.lib) + ((lib2,) if lib2 else ()) + (c.harness['p11drv'], seed, i) + tuple(extra)) for i in range(n)], chunksize=2):
             tr = out['trace']
             stats['sequences'] += 1
             stats['calls'] += len(tr)
@@ -334,7 +334,7 @@ def run_kcrypto(c, res, pid, fn, n, seed, extra=(), stream='K-crypto'):
                 if reported < 3:
                     reported += 1
                     res.violation('%s: %s' % (pid, msg), {'kind': 'reference', 'message': msg, 'ops': [l for l, _ in tr[:j + 1]],
-                                                         'results': [r.get('line', '').strip()[:300] for _, r in tr[max(0, j - 3):j + 1]], 'seed': seed, 'sequence': out['i']})
+                                                         'results': [r.get('line', '').strip()[:300] for _, r in tr[max(0, j - 3):j + 1]], 'seed': seed, 'sequence': out['i'], 'extra': out.get('extra')})
             for msg, j in out.get('model_dis', []):
                 stats['model_disagreements'] += 1
                 if reported < 3 and not out['findings']:
@@ -520,6 +520,26 @@ def check_C14(res, tier, seed):
     finish_proof_side(c, res, 'C14')
 
 
+def check_C17(res, tier, seed):
+    c = prepare('C17', res, variants=('ossl-file', 'asan'), extra_vo=['extract/ExtractCodec.vo', 'extract/ExtractOp.vo', 'extract/ExtractPad.vo'])
+    codecdrv = vlib.build_ocaml('codecdrv', 'codec_model', 'codecdrv.ml')
+    opdrv = vlib.build_ocaml('opdrv', 'op_model', 'opdrv.ml')
+    paddrv = vlib.build_ocaml('paddrv', 'pad_model', 'paddrv.ml')
+    liba = vlib.lib_path(c.builds['asan'])
+    tpl, blob = kstore.build_template(c.lib, c.harness['p11drv'], c.harness['fsshim'])
+    try:
+        stats, distinct, samples = run_kcrypto(c, res, 'C17', 'seq_files', 400 if tier == 'quick' else 12000, seed, extra=(codecdrv, tpl.dir), stream='K-codec', lib2=liba)
+    finally:
+        tpl.close()
+    stats2, distinct2, samples2 = run_kcrypto(c, res, 'C17', 'seq_api', 180 if tier == 'quick' else 6000, seed, extra=(opdrv, paddrv), stream='K-api', lib_override=liba)
+    stats3, distinct3, samples3 = run_kcrypto(c, res, 'C17', 'seq_incomplete', 200 if tier == 'quick' else 5000, seed, stream='K-api', lib_override=liba)
+    res.coverage.update({'evaluations': stats['calls'] + stats2['calls'] + stats3['calls'], 'distinct_nontrivial': distinct + distinct2 + distinct3,
+                         'rule': 'K-fuzz keys: RSA / EC / DSA / DH / AES / generic keys created with one component dropped, empty, 00, 01 or 600 bytes of ff, then every signing, decrypting, verifying, encrypting, deriving, wrapping, unwrapping, digesting and reading call on them, on the sanitizer build.  K-fuzz files: a template token directory (4 objects, both PINs) with 1-3 mutations (bit flips, truncation, 8-byte fields set to big / huge / small values, attribute kinds, zeroed ranges, duplicated ranges, appended bytes, emptied files) in object files, token.object, the generation file, or a hostile line appended to softhsm2.conf; on the plain build and on the ASan+UBSan build a fresh process initialises, lists slots, logs in as SO and user, searches, reads every attribute, and tries encrypt / sign / set / copy / size on up to 8 objects; the number of objects is compared with the number of files the extracted Coq codec reads as valid.  K-fuzz API: the streams of the other checks (K-guard, K-attr, K-crypto C10 / C13, K-sizes, K-reject: hostile handles, lengths, templates, mechanism parameters, key / mechanism mismatches) replayed on the sanitizer build.  A dead, aborted or hung process is a violation (an allocation the sanitizer refuses is judged on the plain build).',
+                         'samples': samples, 'k_fuzz_files': stats, 'k_fuzz_api': stats2, 'k_fuzz_keys': stats3, 'traces_validated_against_impl': stats['sequences'] + stats2['sequences'],
+                         'not_covered': 'entry points the driver does not call (C_GetOperationState restore, C_WaitForSlotEvent, legacy parallel functions); NULL pointers where PKCS#11 forbids them; Botan and SQLite builds'})
+    finish_proof_side(c, res, 'C17')
+
+
 def check_C05(res, tier, seed):
     c = prepare('C05', res, extra_vo=['extract/ExtractCodec.vo'])
     codecdrv = vlib.build_ocaml('codecdrv', 'codec_model', 'codecdrv.ml')
@@ -570,7 +590,7 @@ def kapi_check(pid, profile, monitor_name, rule, nq=400, nt=12000, nops=45):
 
 
 RULE = 'model-guided random call sequences over 2 tokens and up to ~8 sessions (%s profile of tools/genapi.py); a trace is non-trivial when at least 3 calls after the prelude succeed; distinct = distinct (op, rv) sequences'
-CHECKS = {'C03': check_C03, 'C07': check_C07, 'C05': check_C05, 'C09': check_C09, 'C16': check_C16, 'C14': check_C14, 'C12': check_C12, 'C02': attr_check('C02'), 'C08': attr_check('C08'), 'C10': check_C10, 'C13': check_C13,
+CHECKS = {'C03': check_C03, 'C07': check_C07, 'C05': check_C05, 'C09': check_C09, 'C16': check_C16, 'C14': check_C14, 'C17': check_C17, 'C12': check_C12, 'C02': attr_check('C02'), 'C08': attr_check('C08'), 'C10': check_C10, 'C13': check_C13,
           'C01': kapi_check('C01', 'objects', 'monitor_c01', RULE % 'objects'),
           'C04': kapi_check('C04', 'pins', 'monitor_c03', RULE % 'pins'),
           'C11': kapi_check('C11', 'handles', 'monitor_c11', RULE % 'handles'),
